@@ -44,6 +44,8 @@ public:
         Sasl2
     } saslVersion = Sasl;
     std::optional<Sasl2::Authenticate> sasl2AuthRequest;
+    // the password checker reply the current SASL exchange is waiting for (replies of abandoned exchanges are ignored)
+    QXmppPasswordReply *pendingReply = nullptr;
 
     void checkCredentials(const QByteArray &response);
     QString origin() const;
@@ -68,12 +70,14 @@ void QXmppIncomingClientPrivate::checkCredentials(const QByteArray &response)
         request.setPassword(saslServer->password());
 
         QXmppPasswordReply *reply = passwordChecker->checkPassword(request);
+        pendingReply = reply;
         reply->setParent(q);
         reply->setProperty("__sasl_raw", response);
         QObject::connect(reply, &QXmppPasswordReply::finished,
                          q, &QXmppIncomingClient::onPasswordReply);
     } else if (saslServer->mechanism() == u"DIGEST-MD5") {
         QXmppPasswordReply *reply = passwordChecker->getDigest(request);
+        pendingReply = reply;
         reply->setParent(q);
         reply->setProperty("__sasl_raw", response);
         QObject::connect(reply, &QXmppPasswordReply::finished,
@@ -195,6 +199,8 @@ void QXmppIncomingClient::handleStream(const QDomElement &streamElement)
         d->idleTimer->start();
     }
     d->saslServer.reset();
+    d->sasl2AuthRequest.reset();
+    d->pendingReply = nullptr;
 
     // start stream
     const QByteArray sessionId = QXmppUtils::generateStanzaHash().toLatin1();
@@ -277,6 +283,7 @@ void QXmppIncomingClient::handleStanza(const QDomElement &nodeRecv)
 
         if (auto auth = Sasl2::Authenticate::fromDom(nodeRecv)) {
             d->saslVersion = QXmppIncomingClientPrivate::Sasl2;
+            d->pendingReply = nullptr;
             d->sasl2AuthRequest = std::move(auth);
             d->saslServer = QXmppSaslServer::create(d->sasl2AuthRequest->mechanism, this);
             if (!d->saslServer) {
@@ -302,7 +309,7 @@ void QXmppIncomingClient::handleStanza(const QDomElement &nodeRecv)
                 return;
             }
         } else if (auto response = Sasl2::Response::fromDom(nodeRecv)) {
-            if (!d->saslServer) {
+            if (!d->saslServer || d->saslVersion != QXmppIncomingClientPrivate::Sasl2 || !d->sasl2AuthRequest || d->pendingReply) {
                 warning(u"SASL response received, but no mechanism selected"_s);
                 sendData(serializeXml(Sasl2::Failure()));
                 disconnectFromHost();
@@ -327,6 +334,8 @@ void QXmppIncomingClient::handleStanza(const QDomElement &nodeRecv)
             }
         } else if (auto abort = Sasl2::Abort::fromDom(nodeRecv)) {
             d->sasl2AuthRequest.reset();
+            d->saslServer.reset();
+            d->pendingReply = nullptr;
             sendData(serializeXml(Sasl2::Failure { Sasl::ErrorCondition::Aborted, {} }));
         }
     } else if (ns == ns_sasl) {
@@ -339,6 +348,7 @@ void QXmppIncomingClient::handleStanza(const QDomElement &nodeRecv)
 
         if (auto auth = Sasl::Auth::fromDom(nodeRecv)) {
             d->saslVersion = QXmppIncomingClientPrivate::Sasl;
+            d->pendingReply = nullptr;
             d->sasl2AuthRequest.reset();
             d->saslServer = QXmppSaslServer::create(auth->mechanism, this);
             if (!d->saslServer) {
@@ -364,7 +374,7 @@ void QXmppIncomingClient::handleStanza(const QDomElement &nodeRecv)
                 return;
             }
         } else if (auto response = Sasl::Response::fromDom(nodeRecv)) {
-            if (!d->saslServer) {
+            if (!d->saslServer || d->saslVersion != QXmppIncomingClientPrivate::Sasl || d->pendingReply) {
                 warning(u"SASL response received, but no mechanism selected"_s);
                 sendData(serializeXml(Sasl::Failure()));
                 disconnectFromHost();
@@ -473,6 +483,12 @@ void QXmppIncomingClient::onDigestReply()
     }
     reply->deleteLater();
 
+    // ignore replies of an exchange that has been abandoned in the meantime
+    if (reply != d->pendingReply || !d->saslServer) {
+        return;
+    }
+    d->pendingReply = nullptr;
+
     if (reply->error() == QXmppPasswordReply::TemporaryError) {
         warning(u"Temporary authentication failure for '%1' from %2"_s.arg(d->saslServer->username(), d->origin()));
         Q_EMIT updateCounter(u"incoming-client.auth.temporary-auth-failure"_s);
@@ -518,6 +534,12 @@ void QXmppIncomingClient::onPasswordReply()
         return;
     }
     reply->deleteLater();
+
+    // ignore replies of an exchange that has been abandoned in the meantime
+    if (reply != d->pendingReply || !d->saslServer) {
+        return;
+    }
+    d->pendingReply = nullptr;
 
     const QString jid = u"%1@%2"_s.arg(d->saslServer->username(), d->domain);
     switch (reply->error()) {
